@@ -262,8 +262,8 @@ class Cross:
 PROPS = {}
 
 
-def prop(pid, level, rule, assumptions, legs, real_vs_stub, cross=None):
-    PROPS[pid] = dict(level=level, rule=rule, assumptions=assumptions, legs=legs, real_vs_stub=real_vs_stub, cross=cross or [])
+def prop(pid, level, rule, assumptions, legs, real_vs_stub, cross=None, streams=None, selftest=False):
+    PROPS[pid] = dict(level=level, rule=rule, assumptions=assumptions, legs=legs, real_vs_stub=real_vs_stub, cross=cross or [], streams=streams or [], selftest=selftest)
 
 
 REAL = "real code: every algorithm, buffer and dispatch path of the crates under /repo, built from the working tree"
@@ -433,6 +433,53 @@ prop(
 )
 
 
+Q = ("quick", "thorough")
+T = ("thorough",)
+MiB = 1 << 20
+prop(
+    "C17",
+    "exploration",
+    "one case = one seeded run: one hash instance (19 types) and its independent reference model; 0-3 real pieces are absorbed, then the length counter - the hash's clock - "
+    "is JUMPED (hook H2, same jump in the reference) to within 6 blocks of a boundary of that type (BLAKE-224/256: 2^32 bits, format limit 2^64-1 bits; BLAKE-384/512: 2^64-bit "
+    "carry, 2^32 bits, 2^128-bit limit; Groestl: 2^8/2^16/2^32/2^64-3 blocks; JH: 2^32 bits, 2^32 bytes, 2^61 bytes; Skein: 2^32 bytes, 2^64 bytes; plus intermediate ones), then 1-6 more "
+    "pieces are absorbed so that the boundary is crossed by update, by the padding, or not quite, and the digest is compared with the reference; after every step the counter read back "
+    "through H2 must equal the true amount. Separately (no hook used to get there) boundaries are crossed FOR REAL by streaming: 512 MiB through BLAKE-224/256 and JH, "
+    "2^8 and 2^16 blocks through Groestl, 4 GiB through Skein, implementation and reference in lock-step, digests of clones compared at 8 points around the boundary. "
+    "distinct_nontrivial = distinct abstract states (type, nearest boundary and side, buffer empty?, jumped?, op kind)",
+    [
+        "the four reference hashes (BLAKE, Groestl, JH, Skein/Threefish; written from the specifications, no code shared with /repo) are validated against every KAT file of the repository and the BLAKE specification vectors before each run; a failing self-test is a harness error",
+        "if an implementation already differs from the reference WITHOUT any jump (baseline), digest comparisons for that run are suspended and only the counter monitor decides (spec conformance itself is C04-C07, not claimed)",
+        "jumped states are states no real stream of feasible length reaches; the thorough tier therefore also crosses the first boundary of every family for real",
+        "seeded search: a clean batch is evidence, not proof",
+    ],
+    [
+        Leg("std", "release", "counters", "C17", 150000, 2000000, max_ops=16),
+        Leg("std", "checked", "counters", "C17", 150000, 2000000, max_ops=16),
+        Leg("std", "dev", "counters", "C17", 6000, 100000, max_ops=16),
+        Leg("portable", "checked", "counters", "C17", 0, 200000, max_ops=16),
+    ],
+    [REAL, STUB],
+    streams=[
+        ("Blake256", 512 * MiB, Q, True),
+        ("Blake224", 512 * MiB, T, True),
+        ("Groestl224", 256 * 64, Q, True),
+        ("Groestl256", 65536 * 64, Q, True),
+        ("Groestl384", 256 * 128, Q, True),
+        ("Groestl512", 65536 * 128, Q, True),
+        ("Groestl256", 256 * 64, T, True),
+        ("Groestl512", 256 * 128, T, True),
+        ("Jh256", 512 * MiB, T, True),
+        ("Jh512", 512 * MiB, T, True),
+        ("Jh224", 64 * MiB, Q, False),
+        ("Skein256_32", 4096 * MiB, T, True),
+        ("Skein512_64", 4096 * MiB, T, True),
+        ("Skein1024_128", 4096 * MiB, T, True),
+        ("Skein512_64", 64 * 1024, Q, True),
+    ],
+    selftest=True,
+)
+
+
 # ---------------------------------------------------------------------------------------------
 def run_property(pid, tier):
     spec = PROPS[pid]
@@ -440,6 +487,12 @@ def run_property(pid, tier):
     sd = seed()
     replay_dir = os.path.join(VERIF, "replays")
     os.makedirs(replay_dir, exist_ok=True)
+    if spec.get("selftest"):
+        rc, out, err = run_worker(build("std", "release"), ["selftest", "--repo", REPO])
+        if rc != 0:
+            log(err)
+            print("HARNESS-ERROR: reference-model self-test failed (the oracle is wrong, nothing is decided)")
+            return 2
     legs_out = []
     states = set()
     counters = {}
@@ -543,13 +596,61 @@ def run_property(pid, tier):
             run_cross(pid, cross, tier, sd, replay_dir, absorb, violations, known)
         except HarnessError as e:
             harness_error = str(e)
+    stream_results = []
+    if spec.get("streams") and not harness_error:
+        try:
+            run_streams(pid, spec["streams"], tier, sd, replay_dir, stream_results, violations, known)
+        except HarnessError as e:
+            harness_error = str(e)
     total_runs, total_ops = acc["total_runs"], acc["total_ops"]
     wall = time.time() - t0
     extra = None
+    if stream_results:
+        extra = dict(streamed_for_real=stream_results)
+        total_runs += len(stream_results)
     if enumerated:
         extra = dict(enumerated_completely=enumerated, exhaustive=True,
                      exhaustive_scope="placement x start alignment/length residue (3 x 64) for every (operation kind, prefix class, length class, host level) combination; data contents are sampled")
     return finish(pid, tier, sd, spec, wall, total_runs, total_ops, states, counters, notes, samples, legs_out, violations, known, others, harness_error, extra)
+
+
+def run_streams(pid, streams, tier, sd, replay_dir, results, violations, known):
+    """Cross counter boundaries for real (no hook): implementation and reference in lock-step, all streams in parallel."""
+    binary = build("std", "release")
+    procs = []
+    for (ty, boundary, tiers, with_ref) in streams:
+        if tier not in tiers:
+            continue
+        a = [binary, "stream", "--type", ty, "--boundary-bytes", str(boundary), "--seed", str(sd)]
+        if not with_ref:
+            a.append("--no-ref")
+        procs.append((ty, boundary, with_ref, subprocess.Popen(a, stdout=subprocess.PIPE, stderr=subprocess.PIPE, text=True)))
+    for ty, boundary, with_ref, p in procs:
+        so, se = p.communicate()
+        try:
+            out = json.loads(so.strip().splitlines()[-1])
+        except (ValueError, IndexError):
+            log(se[-2000:])
+            raise HarnessError("stream %s failed rc=%s" % (ty, p.returncode))
+        results.append(dict(type=ty, boundary_bytes=boundary, absorbed=out["absorbed"], with_reference=with_ref, digest_mismatches=out["digest_mismatches"],
+                            counter_mismatches=out["counter_mismatches"], wall_ms=out["wall_ms"], checkpoints=len(out["checks"])))
+        log("[%s] stream %s across %d bytes: %d digest mismatches, %d counter mismatches, %.1fs" % (pid, ty, boundary, out["digest_mismatches"], out["counter_mismatches"], out["wall_ms"] / 1000.0))
+        if p.returncode == 1:
+            sig = "streamed for real:%s:%d bytes:%s" % (ty, boundary, "digest" if out["digest_mismatches"] else "counter")
+            f = dict(kind="stream", type=ty, boundary_bytes=boundary, verif_seed=sd, with_reference=with_ref, ops=out["checks"], minimised_from=len(out["checks"]),
+                     violation=dict(properties=[pid], invariant="K3", signature=sig, at_op=0,
+                                    detail="%s streamed across %d bytes for real: %d of %d digests around the boundary differ from the reference, %d counter readings differ from the true amount" % (ty, boundary, out["digest_mismatches"], len(out["checks"]), out["counter_mismatches"])))
+            path = os.path.join(replay_dir, "%s-stream-%s-%d.json" % (pid, ty, boundary))
+            json.dump(f, open(path, "w"))
+            f["replay"] = path
+            kf = open_finding_for(pid, sig)
+            if kf:
+                known.append((kf, f))
+            else:
+                violations.append(f)
+        elif p.returncode != 0:
+            log(se[-2000:])
+            raise HarnessError("stream %s failed rc=%s" % (ty, p.returncode))
 
 
 def read_digests(path):
@@ -690,6 +791,25 @@ def finish(pid, tier, sd, spec, wall, total_runs, total_ops, states, counters, n
 
 def replay(pid, path):
     j = json.load(open(path))
+    if j.get("kind") == "stream":
+        a = [build("std", "release"), "stream", "--type", j["type"], "--boundary-bytes", str(j["boundary_bytes"]), "--seed", str(j.get("verif_seed", 1))]
+        if not j.get("with_reference", True):
+            a.append("--no-ref")
+        p = subprocess.run(a, stdout=subprocess.PIPE, stderr=subprocess.PIPE, text=True)
+        if p.returncode == 1:
+            sig = j["violation"]["signature"]
+            kf = open_finding_for(pid, sig)
+            if kf:
+                print("KNOWN-FINDING: property=%s %s" % (pid, kf.get("what")))
+                return 0
+            print("VIOLATION property=%s replay=%s" % (pid, path))
+            print("  " + p.stdout.strip()[-400:])
+            return 1
+        if p.returncode != 0:
+            print("HARNESS-ERROR: stream replay failed rc=%s" % p.returncode)
+            return 2
+        print("OK replay: streamed digests and counters agree on this tree")
+        return 0
     if j.get("kind") == "crossbuild":
         profile = j.get("meta", {}).get("profile", "release")
         ds = []
@@ -759,7 +879,7 @@ def setup():
                 needed.add((hb, c.profile))
     for hb, profile in sorted(needed):
         binary = build(hb, profile)
-        rc, out, err = run_worker(binary, ["selftest"])
+        rc, out, err = run_worker(binary, ["selftest", "--repo", REPO])
         if rc != 0:
             log(err)
             print("HARNESS-ERROR: reference-model self-test failed in %s/%s" % (hb, profile))
